@@ -107,6 +107,11 @@ def comparison_pool():
                {'a': [1]}, {'a': [1.0]}, {'a': {'b': 1}}, {'a': {'b': 1.0}}, {'a': {'b': {'c': 1}}}, {'a': {'b': {'c': 2}}}, {'': 0}, {'A': 1},
                {'a': 'x'}, {'a': True}, {'a': d.date(2020, 1, 1)}, {'a': d.datetime(2020, 1, 1)}, {'a': 1, 'c': 0}, {'ab': 1},
                {'a': HOST_FUNCTIONS[0]}, {'a': [{'b': [1]}]}, {'a': [{'b': [1.0]}]}]
+    # same key sets inserted in different orders, differing in one or several values (insertion order must not matter)
+    objects += [{'b': 1, 'a': 2}, {'a': 2, 'b': 1}, {'b': 2, 'a': 1.0}, {'a': 1, 'b': 2, 'c': 0}, {'c': 0, 'b': 2, 'a': 1}, {'c': 1, 'a': 0, 'b': 5},
+                {'b': 5, 'c': 1, 'a': 0}, {'b': 0, 'a': 1, 'c': 1}, {'z': None, 'a': 'x'}, {'a': 'y', 'z': None}, {'z': 1, 'a': 'x'},
+                {'k': {'b': 1, 'a': 2}}, {'k': {'a': 1, 'b': 2}}, [{'b': 1, 'a': 2}], [{'a': 1, 'b': 2}], {'y': [1], 'x': [2]}, {'x': [1], 'y': [2]},
+                {'b': 'q', 'a': 'r', 'c': 's'}, {'c': 'q', 'a': 's', 'b': 'r'}]
     pool = scal + arrays + objects
     # second layer: small containers built from the first
     core = [None, True, 0, 1, 1.0, 'a', '', d.date(2020, 1, 1), d.datetime(2020, 1, 1), [], [1], {}, {'a': 1}]
